@@ -86,7 +86,17 @@ Or(p, q) == Op2("logical_or", p, q)
 Sel(c, a, b) == Op3("select", c, a, b)
 Nums == {Num("0"), Num("1"), Num("-1"), Num("2"), Num("3"), Num("4"), Num("1/2"), Num("0.1"), Num("0.2"), Num("-0.0"),
          Num("1e300"), Num("1e-300"), Num("int:3"), Num("int:0"), Num("int:1")}
-RuleTerms ==
+\* constants given as NumPy scalars of ANOTHER width than the expression (the value is then converted to the expression's
+\* type before anything is folded): closed arithmetic sub-terms of two / three of them, alone and under a symbol; and
+\* division by constants at the edges of the range (reciprocals that overflow / underflow)
+NpNums == {Num("np64:0.1"), Num("np64:0.7"), Num("np64:sqrt2"), Num("np64:log2"), Num("np32:third"), Num("np32:seventh"), Num("0.1")}
+EdgeDivs == {Num("pow2:minsub"), Num("pow2:minsub2"), Num("pow2:minnormal"), Num("pow2:max"), Num("pow2:-minsub"), Num("1e300"), Num("1e-300")}
+NpTerms ==
+     {Op2(k, a, b) : k \in {"multiply", "add", "subtract", "divide"}, a \in NpNums, b \in NpNums}
+  \cup {Op2("multiply", Op2(k, a, b), X) : k \in {"multiply", "add"}, a \in NpNums, b \in NpNums}
+  \cup {Op2("add", X, Op2("multiply", a, Op2("multiply", b, c))) : a \in {Num("np64:0.1")}, b \in NpNums, c \in {Num("np64:sqrt2"), Num("np32:third")}}
+  \cup {Op2("divide", x, d) : x \in {X, Num("pow2:minsub"), Num("1"), Op2("multiply", X, Y)}, d \in EdgeDivs}
+RuleTerms0 ==
   \* select rules
      {Sel(Op2(k, a, b), x, y) : k \in RelKinds, a \in {X, Num("0")}, b \in {Y, Num("1")}, x \in {X, Num("2")}, y \in {Y, AbsX}}
   \cup {Sel(Op2("eq", x, y), x, y) : x \in A0, y \in A0} \cup {Sel(Op2("ne", x, y), x, y) : x \in A0, y \in A0}
@@ -227,6 +237,7 @@ RandXR(d) ==
 
 (*************************** emission ***************************************)
 VARIABLE n
+RuleTerms == NpTerms \cup RuleTerms0
 TermSet == CASE Gen = "small" -> SmallTerms [] Gen = "relop" -> RelopTerms [] Gen = "rules" -> RuleTerms
              [] Gen = "ext" -> ExtTerms [] OTHER -> {}
 IsRandom == Gen \in {"random", "extrandom"}
